@@ -124,6 +124,12 @@ def build_cases(tier):
     C.append(T('package_chain_order', 'import "verifprog/b"\nimport "verifprog/a"\nvar M = b.B1 + 1\nfunc init() { println("main.init", M, a.A1) }\n', 'println("main", M)',
                lambda inp: ok([('c.var', ['1']), ('c.init', ['1', '2']), ('c.init2', []), ('a.var', ['2']), ('a.init', ['11']), ('b.init', ['23']), ('main.init', ['24', '11']), ('main', ['24'])]),
                files={'vy/vy.go': VY, 'c/c.go': PC, 'a/a.go': PA, 'b/b.go': PB}))
+    # a package without suspending initialisers of its own between main and a package whose init suspends (main does not import the latter)
+    LEAF = 'package leaf\n\nimport "verifprog/vy"\n\nvar L = 0\n\nfunc init() {\n\tprintln("leaf.begin")\n\tvy.VerifYield()\n\tL = 7\n\tvy.VerifYield()\n\tprintln("leaf.end", L)\n}\n'
+    MID = 'package mid\n\nimport "verifprog/leaf"\n\nvar M = leaf.L + 1\n\nfunc init() { println("mid.init", M) }\n\nfunc Get() int { return M + leaf.L }\n'
+    C.append(T('suspending_init_behind_plain_package', 'import "verifprog/mid"\nvar top = mid.M * 2\nfunc init() { println("main.init", top) }\n', 'println("main", mid.Get(), top)',
+               lambda inp: ok([('leaf.begin', []), ('leaf.end', ['7']), ('mid.init', ['8']), ('main.init', ['16']), ('main', ['15', '16'])]),
+               files={'vy/vy.go': VY, 'leaf/leaf.go': LEAF, 'mid/mid.go': MID}))
     # ---- order inside one package: dependency analysis across files, declaration order, init functions by file name
     Y = 'import "runtime"\n\n//go:noinline\nfunc VerifYield() { runtime.Gosched() }\n'
     C.append(T('file_and_var_order', [Y, 'var vm = note("vm", 5+int(NondetInt8(0)))\nfunc init() { println("init.m", vm) }\n'], 'println("main", va, vm, vz, vlast)',
